@@ -40,6 +40,10 @@ func (c *Ctx) idNilTest(v ssa.Value) (isTest, nonNilWhenTrue bool) {
 	if _, ok := loadsField(other, c.R.FReqID); ok {
 		return true, bo.Op == token.NEQ
 	}
+	// a local copy of the id (id := req.req.ID) or a value handed to a helper
+	if c.allOrigins(other, func(a apath) bool { return a.through(c.R.FReqID) }) {
+		return true, bo.Op == token.NEQ
+	}
 	return false, false
 }
 
@@ -456,6 +460,10 @@ func runC03(c *Ctx) {
 	c.mailboxRule("R03.8")
 	c.rule("R03.10", "the read cycle never stalls (restart, loss signal or redial on every path after a message was taken)")
 	c.readCycleRule("R03.10")
+	c.rule("R03.11", "an in-flight entry is removed only together with a completion; the request queue is unbuffered; the deadline renewal is unconditional")
+	c.inflightRemovalRule("R03.11")
+	c.renewalUnconditional("R03.11")
+	c.unbufferedQueue("R03.11")
 	c.rule("R03.9", "the read deadline is renewed only on evidence of inbound activity, so a silent stall is detected while the client keeps sending")
 	c.deadlineRenewalRule("R03.9")
 }
@@ -982,4 +990,35 @@ func (c *Ctx) enqueueRule(rule string) {
 		}
 	}
 
+}
+
+// unbufferedQueue: the hand-over of a request to the connection loop is a rendezvous: the enqueue is a
+// select alternative to the exit signal (R03.5), so either the loop took the request — and then answers it
+// on every path (R03.6) — or the caller sees the exit. A buffered queue breaks that: a request can be
+// accepted into the buffer after the loop has taken its last one, and nobody will ever answer it.
+func (c *Ctx) unbufferedQueue(rule string) {
+	p, r := c.P, c.R
+	n := 0
+	for _, fn := range p.Funcs {
+		if pkgOf(fn) != p.Root.Pkg {
+			continue
+		}
+		allInstrsRaw(fn, func(in ssa.Instruction) {
+			mk, ok := in.(*ssa.MakeChan)
+			if !ok {
+				return
+			}
+			ch, ok := mk.Type().Underlying().(*types.Chan)
+			if !ok || ch.Elem() != types.Type(r.TCreq) {
+				return
+			}
+			n++
+			k, isK := constInt(mk.Size)
+			c.check(isK && k == 0, rule, fmt.Sprintf("%s: request queue", fname(fn)), c.ipos(mk), "unbuffered (rendezvous with the loop)",
+				"the request queue is buffered: a request can sit in the buffer when the connection loop exits (connection reset without reconnect, client closed between connections) and its caller, which only waits for the answer after the hand-over, is never answered")
+		})
+	}
+	if n == 0 {
+		c.und(rule, "request queue", "-", "no make of the request queue found")
+	}
 }
